@@ -45,6 +45,38 @@ func pairs(fs ...interface{}) [][]interface{} {
 	return out
 }
 
+// noise: a forged transaction (rightful owner's address and public key, junk signature, control handed to
+// the intruder) goes through CheckTx and the app/simulate query.  Not recorded.
+func (sc *scenario) noise(kinds ...string) {
+	st := sc.w.s.Project()
+	for _, k := range kinds {
+		owner := -1
+		switch k {
+		case "acl":
+			owner = keyIdxOf(sc.w.s, st.ACL["gov/acl"])
+		case "daoOwner":
+			owner = keyIdxOf(sc.w.s, st.ACL["gov/daoOwner"])
+		case "upgrade":
+			owner = keyIdxOf(sc.w.s, st.ACL["gov/upgrade"])
+		case "transfer":
+			owner = keyIdxOf(sc.w.s, st.DAOOwner)
+		}
+		if owner < 0 {
+			continue
+		}
+		sc.w.s.Noise(sc.w.forged(k, owner, kUnrelated, sc.next()))
+		sc.rep.OpCounts["noise:"+k]++
+	}
+}
+
+// noiseTx: a correctly signed transaction that is only checked / simulated, never delivered
+func (sc *scenario) noiseTx(t txn) {
+	sc.w.s.Noise(t.bz)
+	sc.rep.OpCounts["noise:signed-"+t.abs["kind"].(string)]++
+}
+
+func (sc *scenario) blockWith(inBlock func(), txs ...txn) { sc.r.blockWith(sc.rep, inBlock, txs...) }
+
 func daoBal(sc *scenario) int64 { return sc.w.s.Project().Bal["dao"] }
 
 // owners of a key in the running chain (read only to choose WHO sends; no expectation is kept)
@@ -116,6 +148,38 @@ func upgradeScenario(tw *hx.TraceWriter, rep *hx.Report, seed int64, zero bool) 
 	sc.block()
 }
 
+// intruderScenario: off-chain forgeries followed by the intruder's own, correctly signed transactions.
+// Everything the intruder sends must be refused (the stored ACL / DAO owner never named it), and the
+// rightful owners must still be served.
+func intruderScenario(tw *hx.TraceWriter, rep *hx.Report, seed int64, zero bool) {
+	sc := start(tw, rep, "intruder", seed, zero)
+	h := int(sc.w.s.Height)
+	in := kUnrelated
+	attack := func() []txn {
+		return []txn{sc.param(in, "application/StabilityAdjustment", true), sc.param(in, "gov/daoOwner", true),
+			sc.param(in, "gov/acl", true), sc.transfer(in, in, 500), sc.burn(in, 7), sc.feat(in, "F2", h+9)}
+	}
+	sc.block(attack()...) // before any noise
+	sc.noise("acl", "daoOwner", "transfer")
+	sc.block(attack()...)
+	sc.blockWith(func() { sc.noise("acl", "daoOwner", "transfer") }, attack()...) // noise inside the block
+	sc.block(sc.param(kOwner, "application/StabilityAdjustment", true), sc.transfer(kOwner, kFresh, 3))
+	// the rightful owner's own change, only simulated: nothing may stick, the intruder stays out
+	sc.noiseTx(sc.param(kOwner, "gov/acl", true))
+	sc.noiseTx(sc.param(kOwner, "gov/daoOwner", true))
+	sc.block(attack()...)
+	sc.block(sc.param(kOwner, "gov/daoOwner", true)) // now really: a2 is the DAO owner
+	sc.noise("acl", "daoOwner", "transfer")
+	sc.block(append(attack(), sc.transfer(kOwner, in, 5), sc.transfer(kOwner2, kFresh, 5))...)
+	// a forged upgrade, simulated between two blocks (known finding F-C37-simulate while open), then the
+	// intruder again, a real upgrade by the owner and a restart
+	sc.noise("upgrade")
+	sc.block(attack()...)
+	sc.block(sc.feat(kOwner, "F1", h+12))
+	sc.restart()
+	sc.block(attack()...)
+}
+
 // random mixture
 func randomScenario(tw *hx.TraceWriter, rep *hx.Report, idx, blocks int) {
 	rng := hx.Rng(int64(idx)*104729 + 5)
@@ -125,6 +189,20 @@ func randomScenario(tw *hx.TraceWriter, rep *hx.Report, idx, blocks int) {
 	for b := 0; b < blocks; b++ {
 		if rng.Intn(7) == 0 {
 			sc.restart()
+		}
+		forgeries := []string{"acl", "daoOwner", "transfer", "upgrade"}
+		noisy := false
+		if rng.Intn(3) == 0 { // off-chain forgeries between two blocks
+			for i := 1 + rng.Intn(2); i > 0; i-- {
+				sc.noise(forgeries[rng.Intn(4)])
+			}
+			noisy = true
+		}
+		var inBlock func()
+		if rng.Intn(4) == 0 { // ... and inside the block (never a forged upgrade right before a delivered one)
+			k := forgeries[rng.Intn(3)]
+			inBlock = func() { sc.noise(k) }
+			noisy = true
 		}
 		var txs []txn
 		for i := rng.Intn(4); i > 0; i-- {
@@ -162,7 +240,21 @@ func randomScenario(tw *hx.TraceWriter, rep *hx.Report, idx, blocks int) {
 				}
 			}
 		}
-		sc.block(txs...)
+		if noisy { // the intruder follows up with its own, correctly signed transactions
+			for i := 1 + rng.Intn(3); i > 0; i-- {
+				switch rng.Intn(4) {
+				case 0:
+					txs = append(txs, sc.param(kUnrelated, keys[rng.Intn(len(keys))], true))
+				case 1:
+					txs = append(txs, sc.param(kUnrelated, "gov/daoOwner", true))
+				case 2:
+					txs = append(txs, sc.transfer(kUnrelated, kUnrelated, 1+rng.Int63n(5000)))
+				default:
+					txs = append(txs, sc.burn(kUnrelated, 1+rng.Int63n(5000)))
+				}
+			}
+		}
+		sc.blockWith(inBlock, txs...)
 	}
 }
 
@@ -183,6 +275,10 @@ func traceGov(out, mode string, n, blocks int) {
 	case "upgrade":
 		upgradeScenario(tw, rep, seed+2, false)
 		upgradeScenario(tw, rep, seed+3, true)
+		rep.Behaviours += 2
+	case "intruder":
+		intruderScenario(tw, rep, seed+4, false)
+		intruderScenario(tw, rep, seed+5, true)
 		rep.Behaviours += 2
 	case "random":
 		for i := 0; i < n; i++ {
